@@ -4,6 +4,8 @@
    (10 2 rows cols k)               Matrix::map_mut_with_index
    (10 3 rows cols row vals k)      Matrix::insert_row_with, iterator panics on next() k+1
    (10 4 rows cols column vals k)   Matrix::insert_column_with
+   (10 3|4 rows cols pos vals k claim)   the same with an iterator whose size_hint() claims exactly
+                                    `claim` items (possibly a lie): the result must not depend on it
    (10 5 lens k)                    Tensor::map_mut       (shape lens, data iota)
    (10 6 lens k)                    Tensor::map_mut_with_index
    result: (panicked? rows cols (elements…)) resp. (panicked? (elements…)).
@@ -35,6 +37,15 @@ Definition run_c10 (args : list sx) : sx :=
           else if (op =? 4)%Z then smstate (insert_column_with_panic s pos vals k)
           else bad_case
       | _, _, _, _, _ => bad_case
+      end
+  | [SZ op; rows; cols; pos; vals; k; claim] =>
+      match dnat rows, dnat cols, dnat pos, dlist dZ vals, dnat k, dN claim with
+      | Some rows, Some cols, Some pos, Some vals, Some k, Some _ =>
+          let s := mkM rows cols (iotaZ (rows * cols)) in
+          if (op =? 3)%Z then smstate (insert_row_with_panic s pos vals k)
+          else if (op =? 4)%Z then smstate (insert_column_with_panic s pos vals k)
+          else bad_case
+      | _, _, _, _, _, _ => bad_case
       end
   | [SZ op; lens; k] =>
       match dlist dnat lens, dnat k with
